@@ -11,6 +11,8 @@
 package watchdog
 
 import (
+	"fmt"
+	"hash/fnv"
 	"regexp"
 	"runtime"
 	"strings"
@@ -26,25 +28,28 @@ var blockedState = regexp.MustCompile(`^goroutine \d+ \[(semacquire|sync\.Mutex\
 
 // Run runs f under the watchdog.
 func Run(limit time.Duration, f func(), stuck func(dump string), slow func(dump string)) {
-	done := make(chan interface{}, 1)
+	done := make(chan raised, 1)
 	go func() {
-		defer func() { done <- recover() }()
+		defer func() {
+			r := recover()
+			site := ""
+			if r != nil {
+				site = raiseSite()
+			}
+			done <- raised{r, site}
+		}()
 		caseGoroutine(f)
 	}()
 	select {
 	case r := <-done:
-		if r != nil {
-			panic(r)
-		}
+		r.again()
 		return
 	case <-time.After(limit):
 	}
 	// a last chance: it may just have finished
 	select {
 	case r := <-done:
-		if r != nil {
-			panic(r)
-		}
+		r.again()
 		return
 	default:
 	}
@@ -103,4 +108,48 @@ func Case(t Fataler, prop string, g *evid.Group, body func(c *evid.Case)) {
 		defer c.End()
 		body(c)
 	})
+}
+
+// raised is a panic of the case goroutine and where it was raised.
+type raised struct {
+	value interface{}
+	site  string
+}
+
+// LastSite is the raise site of the failure re-raised last (for the report).
+var LastSite string
+
+// again re-raises the panic in the calling goroutine.
+func (r raised) again() {
+	if r.value == nil {
+		return
+	}
+	if fmt.Sprintf("%T", r.value) == "rapid.invalidData" {
+		trampInvalid(r.value)
+	}
+	LastSite = r.site
+	h := fnv.New32a()
+	h.Write([]byte(r.site))
+	trampolines[int(h.Sum32()%uint32(len(trampolines)))](r.value)
+}
+
+// raiseSite renders the stack of the panic that is being recovered, from the
+// raise down to the case goroutine's entry.
+func raiseSite() string {
+	pcs := make([]uintptr, 64)
+	frames := runtime.CallersFrames(pcs[:runtime.Callers(3, pcs)])
+	var b strings.Builder
+	for {
+		f, more := frames.Next()
+		if strings.HasSuffix(f.Function, "watchdog.caseGoroutine") {
+			break
+		}
+		if !strings.HasPrefix(f.Function, "runtime.") {
+			fmt.Fprintf(&b, "    %s:%d in %s\n", f.File, f.Line, f.Function)
+		}
+		if !more {
+			break
+		}
+	}
+	return b.String()
 }
